@@ -1,11 +1,37 @@
-use asys::world::*;
 use asys::scripts::*;
-use vcommon::sched::run_one;
+use asys::world::*;
+use std::time::Instant;
+use vcommon::sched::{run_one, World};
 fn main() {
     let script = sequential(&[vec![link("v"), cmd("v", "1"), unlink("v")], vec![sync("m"), act(&["@upd{k:1,v:1}", "@upd{k:2,v:2}"]), unlink("m")]]);
     let cfg = Cfg::basic(script, 2);
-    let t = std::time::Instant::now();
+    let t = Instant::now();
     let mut steps = 0;
-    for _ in 0..1000 { steps += run_one::<AsWorld>(&cfg, &[], false).unwrap().choices.len(); }
-    println!("1000 execs {:?} steps/exec {}", t.elapsed(), steps / 1000);
+    for _ in 0..1000 {
+        steps += run_one::<AsWorld>(&cfg, &[], false).unwrap().choices.len();
+    }
+    println!("1000 execs via run_one {:?} steps/exec {}", t.elapsed(), steps / 1000);
+    // phases, on this thread
+    let (mut t_rt, mut t_new, mut t_run, mut t_fin) = (0u128, 0u128, 0u128, 0u128);
+    for _ in 0..300 {
+        let t0 = Instant::now();
+        let rt = tokio::runtime::Builder::new_current_thread().enable_time().start_paused(true).build().unwrap();
+        t_rt += t0.elapsed().as_micros();
+        rt.block_on(async {
+            let t1 = Instant::now();
+            let mut w = AsWorld::new(&cfg, false);
+            t_new += t1.elapsed().as_micros();
+            let t2 = Instant::now();
+            loop {
+                let en = w.enabled();
+                if en.is_empty() { break; }
+                w.fire(en[0]).await;
+            }
+            t_run += t2.elapsed().as_micros();
+            let t3 = Instant::now();
+            let _ = w.finish();
+            t_fin += t3.elapsed().as_micros();
+        });
+    }
+    println!("per exec (us): runtime build {} world new {} run {} finish {}", t_rt / 300, t_new / 300, t_run / 300, t_fin / 300);
 }
